@@ -5,7 +5,7 @@
    (below) and otherwise judged on every run by the extracted reader on the implementation's output. *)
 From Coq Require Import String List ZArith NArith Bool.
 Import ListNotations.
-From Selfies Require Import Base Generated Lex Atoms Decoder StateFacts Reader DecoderBasics DecoderInv DecoderSum TokFacts.
+From Selfies Require Import Base Generated Lex Atoms Decoder StateFacts Reader DecoderBasics DecoderInv DecoderTree DecoderSum TokFacts.
 Local Open Scope string_scope.
 Local Open Scope Z_scope.
 
@@ -88,13 +88,21 @@ Theorem C01_graph_shape_partial : forall T s attribute m,
   (forall i, NoDup (map b_dst (row m i))) /\
   (forall r, In r (roots m) -> (r < natoms m)%nat).
 Proof.
-  intros T s attribute m Hq Hd E. pose proof (decode_graph_ok T s attribute m Hq Hd E) as G.
+  intros T s attribute m Hq Hd E. destruct (decode_graph_ok T s attribute m Hq Hd E) as [G _].
   split; [|split; [|split]].
   - intros i e He. destruct (wf_bonds _ _ _ G i e He) as (A & B & C & _). auto.
   - exact (si_sym _ (wf_extra _ _ _ G)).
   - exact (si_nodup _ (wf_extra _ _ _ G)).
   - exact (wf_roots _ _ _ G).
 Qed.
+
+
+(* ... and its tree bonds form a forest over the roots: every atom is a root or has exactly one parent,
+   roots have none, no root is listed twice (so the writer prints every atom exactly once) *)
+Theorem C01_graph_forest_partial : forall T s attribute m,
+  (exists c, assoc (lit "?") T = Some c) -> digits_ok s ->
+  decode_graph T s false attribute = Ok m -> TreeInv m.
+Proof. intros T s attribute m Hq Hd E. exact (proj2 (decode_graph_ok T s attribute m Hq Hd E)). Qed.
 
 (* what is returned is what the writer prints from exactly that graph *)
 Theorem C01_output_is_written_graph : forall T s attribute out,
@@ -126,5 +134,6 @@ Print Assumptions C01_ring_rule_partial.
 Print Assumptions C01_ninety_nine_rings.
 Print Assumptions C01_graph_valence_partial.
 Print Assumptions C01_graph_shape_partial.
+Print Assumptions C01_graph_forest_partial.
 Print Assumptions C01_graph_valence_short_symbols.
 Print Assumptions C01_output_is_written_graph.
